@@ -132,7 +132,11 @@ class Decider:
         if z3.is_false(c):
             return False
         s = z3.Solver()
-        s.set("timeout", self.timeout_ms)
+        # deterministic resource limit: the soft timeout alone is not always
+        # honoured on quantified goals (a stuck check would hang the run);
+        # 'unknown' keeps the branch, which is sound.  No wall-clock timeout
+        # here, so the set of explored paths does not depend on machine load.
+        s.set("rlimit", 400000)
         for p in pc:
             s.add(p)
         s.add(c)
